@@ -588,13 +588,24 @@ func (e *Enc) loopCands(fr *Frame, li *loopInfo) []*invCand {
 	// heap-resident containers of local objects: owned(load(alloc.field))
 	if !fr.inl {
 		ncand := 0
+		// only objects the loop body stores to need an ownership invariant (the others keep their contents)
+		writtenIn := map[ssa.Value]bool{}
+		for b := range li.body {
+			for _, in := range b.Instrs {
+				if st, ok := in.(*ssa.Store); ok {
+					if r := rootAllocOf(st.Addr); r != nil {
+						writtenIn[r] = true
+					}
+				}
+			}
+		}
 		for _, b := range fr.fn.Blocks {
 			if b == li.head || !b.Dominates(li.head) {
 				continue
 			}
 			for _, in := range b.Instrs {
 				al, ok := in.(*ssa.Alloc)
-				if !ok {
+				if !ok || !writtenIn[al] {
 					continue
 				}
 				ref, ok := fr.vals[al]
@@ -1033,25 +1044,25 @@ func (e *Enc) debugVars(fr *Frame, at *ssa.BasicBlock, st *State, vars map[strin
 		pos token.Pos
 	}
 	cells := map[string]cellCand{}
+	tempComment := map[string]bool{"": true, "complit": true, "varargs": true, "makeslice": true, "slicelit": true, "arraylit": true, "new": true}
 	for _, b := range fr.fn.Blocks {
+		if !(b == at || b.Dominates(at)) {
+			continue
+		}
 		for _, in := range b.Instrs {
-			d, ok := in.(*ssa.DebugRef)
-			if !ok || !d.IsAddr || d.Object() == nil {
-				continue
-			}
-			al, ok := d.X.(*ssa.Alloc)
-			if !ok {
+			al, ok := in.(*ssa.Alloc)
+			if !ok || tempComment[al.Comment] || strings.ContainsAny(al.Comment, " .()") {
 				continue
 			}
 			ref, ok := fr.vals[al]
-			if !ok || !(al.Block() == at || al.Block().Dominates(at)) {
+			if !ok {
 				continue
 			}
-			n := d.Object().Name()
+			// parameters spilled to memory keep their parameter binding; named variables are read from their cell
 			el := al.Type().Underlying().(*types.Pointer).Elem()
-			c := cellCand{e.addrOfRef(ref, el), el, d.Object().Pos()}
-			if old, ok := cells[n]; !ok || c.pos > old.pos {
-				cells[n] = c
+			c := cellCand{e.addrOfRef(ref, el), el, al.Pos()}
+			if old, ok := cells[al.Comment]; !ok || c.pos > old.pos {
+				cells[al.Comment] = c
 			}
 		}
 	}
@@ -1367,18 +1378,24 @@ func (e *Enc) finish() {
 // callOrdinal: the position (1-based, source order) of call c among the static calls of the same callee
 // in its function.
 func callOrdinal(f *ssa.Function, c *ssa.Call) (string, int) {
-	callee := c.Common().StaticCallee()
-	if callee == nil {
+	nameOf := func(x *ssa.Call) string {
+		if cc := x.Common().StaticCallee(); cc != nil {
+			return shortName(cc)
+		}
+		if x.Common().IsInvoke() {
+			return "invoke:" + x.Common().Method.Name()
+		}
+		return ""
+	}
+	name := nameOf(c)
+	if name == "" {
 		return "", 0
 	}
-	name := shortName(callee)
 	var calls []*ssa.Call
 	for _, b := range f.Blocks {
 		for _, in := range b.Instrs {
-			if x, ok := in.(*ssa.Call); ok {
-				if cc := x.Common().StaticCallee(); cc != nil && shortName(cc) == name {
-					calls = append(calls, x)
-				}
+			if x, ok := in.(*ssa.Call); ok && nameOf(x) == name {
+				calls = append(calls, x)
 			}
 		}
 	}
